@@ -8,8 +8,8 @@
    prints nothing on empty input.  The copy loop is therefore claimed for non-empty inputs; COPY 0 covers the empty text. *)
 From Coq Require Import List NArith Bool.
 Import ListNotations.
-From HV Require Import Model.Parse Model.Utf8 Spec.Lang Proofs.UniSpec.
-From HV Require Proofs.UniProofs.
+From HV Require Import Model.Parse Model.Utf8 Model.Cli Spec.Lang Proofs.UniSpec Proofs.ExtraSpec.
+From HV Require Proofs.UniProofs Proofs.ExtraProofs.
 Open Scope N_scope.
 
 (* every valid text survives encoding and decoding: every scalar value U+0000..U+10FFFF, any length *)
@@ -46,6 +46,13 @@ Theorem C14_cat_loop : forall t, t <> [] -> small_scalars t ->
   exists fuel s, srun fuel cat_prog (lstate0 (lines_of t)) 0 = SDone s /\ out s = t /\ err s = [].
 Proof. exact UniProofs.cat_loop. Qed.
 Print Assumptions C14_cat_loop.
+
+(* end to end through the models of the file reader, parser, interpreter (limb-level numbers) and stdin/stdout codecs:
+   `hyeong run -O0` of the copy-loop source on the bytes of any non-empty valid text writes exactly those bytes *)
+Theorem C14_cat_through_cli : forall t, t <> [] -> scalars t ->
+  exists fuel, run_cli 0 (FBytes true (encode CAT_SRC)) (encode t) fuel = CExit 0 (encode t) [].
+Proof. exact ExtraProofs.cat_cli. Qed.
+Print Assumptions C14_cat_through_cli.
 
 Example C14_examples :
   decode (encode [0; 127; 128; 2047; 2048; 55295; 57344; 65535; 65536; 1114111]) = Some [0; 127; 128; 2047; 2048; 55295; 57344; 65535; 65536; 1114111] /\
